@@ -190,7 +190,9 @@ func c20Check(c C20Case) (r evid.Result) {
 	}
 }
 
-var c20Alphabet = []string{"a", "Z", "0", "9", "_", ".", "-", "/", " ", "é", "世", "\xff", "\xc3"}
+// The 13 symbols named by the property plus a non-ASCII decimal digit (a multi-byte character
+// of another Unicode class than the letters é / 世).
+var c20Alphabet = []string{"a", "Z", "0", "9", "_", ".", "-", "/", " ", "é", "世", "\xff", "\xc3", "٣"}
 
 func c20GenKey(t *rapid.T, maxLen int, validUTF8 bool) string {
 	extra := []string{"b", "q", "7", ":", "=", "\"", "\\", "{", "\x00", "\n", " ", "𝛑", "\xe4\xb8", "\x80"}
@@ -305,7 +307,7 @@ func TestC20(t *testing.T) {
 		col.AddBulk(total, nontrivial, "exhaustive-key")
 		col.SetExtra("exhaustive_strings", total)
 		col.SetExtra("exhaustive_max_len", maxLen)
-		col.SetExtra("exhaustive_alphabet", "a Z 0 9 _ . - / space é 世 0xFF 0xC3")
+		col.SetExtra("exhaustive_alphabet", "a Z 0 9 _ . - / space é 世 0xFF 0xC3 ٣(U+0663)")
 	}
 	evid.RunWith(t, col, c20Gen, c20Check)
 }
